@@ -636,13 +636,15 @@ def replay(case):
 # ------------------------------------------------------------------------------------------------------------------
 def configurations(tier):
     cfgs = []
-    # (grid, must_include flavour, procs)
+    # (grid, must_include flavour, procs); the 12- and 14-case grids have two-digit case numbers (run-directory names
+    # that are prefixes of one another: index_..._run_1 / _run_10)
     base = [((2, 2), 'none', 4)]
     if tier == 'quick':
-        base += [((3, 2), 'list', 4), ((3, 2), 'tuple', 4), ((2, 2), 'log', 5)]
+        base += [((3, 2), 'list', 4), ((3, 2), 'tuple', 4), ((2, 2), 'log', 5), ((6, 2), 'none', 4)]
     else:
         base += [((3, 2), 'list', 4), ((3, 2), 'tuple', 4), ((2, 2), 'log', 5), ((4, 2), 'list2', 4), ((4, 2), 'none', 8),
-                 ((3, 2), 'none', 16), ((2, 2, 2), 'none', 4)]
+                 ((3, 2), 'none', 16), ((2, 2, 2), 'none', 4),
+                 ((6, 2), 'none', 4), ((13,), 'list', 6)]
     for grid, mi, procs in base:
         cfgs.append(dict(grid=list(grid), must_include=mi, procs=procs, avoid_crashes=True))
     return cfgs
